@@ -275,7 +275,7 @@ def cases():
                 out.append({'label': '%s/layout%s' % (m.name, lay), 'mesh': m, 'fields': fsets[2], 'layout': [lay], 'geom': 1})
     for r in range(6 if tier == 'quick' else 200):
         nd = rnd.choice([2, 3])
-        m = families.random_mesh(rnd, nd, max_levels=2, max_boxes=4)
+        m = families.random_mesh(rnd, nd, max_levels=2 if tier == 'quick' else 3, max_boxes=4 if tier == 'quick' else 6)
         m.name = 'rand%d-%dd' % (r, nd)
         out.append({'label': m.name, 'mesh': m, 'fields': rnd.choice(fsets), 'layout': families.scatter_layouts(m, rnd, 4), 'geom': rnd.randrange(3)})
     return out
